@@ -26,20 +26,51 @@ def detect_variant(src):
     fn = next((n for n in mod.body if isinstance(n, ast.FunctionDef) and n.name == "fill_cij"), None)
     if fn is None:
         raise Untranslatable("fill_cij not found")
-    lst, other = None, []
+    lst, other, lst_line = None, [], None
+    assigns = []            # (lineno, [names], value node) of every assignment in fill_cij
     for n in ast.walk(fn):
+        if isinstance(n, (ast.AugAssign, ast.AnnAssign)) and isinstance(n.target, ast.Name):
+            assigns.append((n.lineno, [n.target.id], None))
         if isinstance(n, ast.Assign):
             names = []
             for t in n.targets:
                 names += [e.id for e in (t.elts if isinstance(t, ast.Tuple) else [t]) if isinstance(e, ast.Name)]
+            assigns.append((n.lineno, names, n.value if len(n.targets) == 1 and isinstance(n.targets[0], ast.Name) else None))
             call = ast.unparse(n.value).replace(" ", "")
             if call.startswith("numpy.linalg.lstsq("):
                 if call != "numpy.linalg.lstsq(a,b,rcond=None)" or len(n.targets) != 1 or \
                         not isinstance(n.targets[0], ast.Tuple) or len(n.targets[0].elts) != 4:
                     raise Untranslatable("unexpected lstsq call: " + ast.unparse(n))
                 lst = [e.id if isinstance(e, ast.Name) else None for e in n.targets[0].elts]
+                lst_line = n.lineno
             elif "residuals" in names:
-                other.append(call)
+                other.append((n.lineno, n.value))
+    # single-assignment locals bound AFTER the lstsq call (e.g. `misfit = a @ x - b`) are inlined into the expression
+    # `residuals` is bound to; sound because a, b and x must not be re-bound after the lstsq call
+    if lst_line is not None:
+        for ln, names, _ in assigns:
+            if ln > lst_line and set(names) & {"a", "b", "x"}:
+                raise Untranslatable("a / b / x re-bound after the lstsq call (line %d)" % ln)
+        count = {}
+        for ln, names, _ in assigns:
+            for nm in names:
+                count[nm] = count.get(nm, 0) + 1
+        local_def = {names[0]: (ln, val) for ln, names, val in assigns
+                     if val is not None and len(names) == 1 and count[names[0]] == 1 and ln > lst_line
+                     and names[0] not in ("residuals", "a", "b", "x")}
+
+        class Inline(ast.NodeTransformer):
+            def __init__(self, before):
+                self.before = before
+
+            def visit_Name(self, node):
+                d = local_def.get(node.id)
+                if d and d[0] < self.before and isinstance(node.ctx, ast.Load):
+                    return Inline(d[0]).visit(ast.parse(ast.unparse(d[1]), mode="eval").body)
+                return node
+        other = [ast.unparse(Inline(ln).visit(ast.parse(ast.unparse(v), mode="eval").body)).replace(" ", "") for ln, v in other]
+    else:
+        other = [ast.unparse(v).replace(" ", "") for _, v in other]
     if lst is None:
         raise Untranslatable("lstsq call not found")
     tests = [ast.unparse(n.test).replace(" ", "").replace("(", "").replace(")", "") for n in ast.walk(fn) if isinstance(n, ast.If)]
